@@ -84,6 +84,7 @@ int glue_fiber_state(void* f);
 void glue_fiber_stack(void* f, void** lo, size_t* size, int* is_thread);
 void* glue_current_fiber(void);
 size_t glue_sizeof_fiber(void);
+int glue_is_yield_requeue(void* f);
 
 /* results */
 void finish(int code, const char* verdict, const char* oracle, const char* detail) SIM_NORETURN;
